@@ -230,7 +230,10 @@ Fixpoint render (lv : nat) (r : rho) (e : mexpr) {struct e} : list token :=
 (* a word that the tokenizer would not hand out as a plain identifier, or that the parser treats
    specially by its text (checked case-insensitively) *)
 Definition special_words : list string :=
-  ["ILIKE"; "REGEXP"; "RLIKE"; "SEPARATOR"; "AGAINST"; "MATCH"].
+  ["ILIKE"; "REGEXP"; "RLIKE"; "SEPARATOR"; "AGAINST"; "MATCH";
+   (* the SQL-92 datetime value functions written without parentheses: not column names (since /repo "fix: ... datetime
+      value functions") *)
+   "CURRENT_DATE"; "CURRENT_TIME"; "CURRENT_TIMESTAMP"; "LOCALTIME"; "LOCALTIMESTAMP"].
 Definition plain_name (s : string) : bool :=
   negb (String.eqb s "") && forallb (fun w => negb (eqfold s w)) special_words.
 
